@@ -57,6 +57,11 @@ fn write_tree(dir: &Path, files: &BTreeMap<String, Vec<u8>>) {
         use std::os::unix::fs::PermissionsExt;
         let _ = std::fs::set_permissions(dir.join("ends-without-newline.md"), std::fs::Permissions::from_mode(0o600));
     }
+    // ... and, when the check runs as root, belongs to somebody else (normalize run with sudo, or in a container over a
+    // bind-mounted library): it must stay that user's note
+    if files.contains_key("ends-without-newline.md") {
+        let _ = std::os::unix::fs::chown(dir.join("ends-without-newline.md"), Some(1000), Some(1000));
+    }
     if files.contains_key("sub dir/crlf note.md") {
         let _ = std::fs::create_dir_all(dir.join("elsewhere-in-lib"));
         let _ = std::fs::rename(dir.join("sub dir/crlf note.md"), dir.join("elsewhere-in-lib/real-file.txt"));
@@ -213,7 +218,7 @@ impl Check for C19 {
     }
     fn plan(&self, tier: Tier, _seed: u64) -> Plan {
         Plan {
-            cases: tier.pick(2, 30) + 2,
+            cases: tier.pick(2, 30) + 3,
             procs: tier.pick(2, 16),
             wall_s: 1200,
             cpu_s: None,
@@ -252,6 +257,46 @@ impl Check for C19 {
             let _ = std::fs::remove_file(&log);
             return rep;
         }
+        if case == tier.pick(2, 30) + 2 {
+            // a project whose configuration keeps the library in notes/: files outside of it are not the command's business,
+            // whether the configuration is complete, leaves tables out, or cannot be read at all
+            let configs: [(&str, &str); 3] = [
+                ("partial", "prompt_key_prefix = \"prompt\"\n[markdown]\nrefs_extension = \".md\"\n[library]\npath = \"notes\"\n"),
+                ("syntax-error", "[library]\npath = \"notes\n"),
+                ("library-only", "[library]\npath = \"notes\"\n"),
+            ];
+            for (class, config) in configs {
+                let dir = mon::scratch_dir("c19");
+                let log = dir.with_extension("strace");
+                let mut files = BTreeMap::new();
+                files.insert(".iwe/config.toml".to_string(), config.as_bytes().to_vec());
+                files.insert("notes/a.md".to_string(), b"# A\n\n*  item\n\n[t](b.md)\n".to_vec());
+                files.insert("notes/b.md".to_string(), b"# B\n".to_vec());
+                files.insert("README.md".to_string(), b"Readme\n======\n\n* x\n".to_vec());
+                files.insert("docs/guide.md".to_string(), b"Guide\n=====\n\n*  y\n".to_vec());
+                write_tree(&dir, &files);
+                let r = run_iwe(&dir, None, None, &log);
+                rep.count("events", 1);
+                rep.count("configured_library_runs", 1);
+                rep.shape(fnv(&format!("configured:{}", class)));
+                for outside in ["README.md", "docs/guide.md", ".iwe/config.toml"] {
+                    if r.after.get(outside) != files.get(outside) {
+                        rep.violate("file-outside-library-modified", &format!("config:{}", class), format!("{} lies outside the configured library notes/ and was rewritten by `iwe normalize` ({}): {:?}", outside, r.status, r.after.get(outside).map(|c| String::from_utf8_lossy(c).to_string())), json!({"config": config, "files": files.keys().collect::<Vec<_>>()}));
+                    }
+                }
+                if class != "syntax-error" {
+                    // the library itself is normalised, with the configured extension kept on the link
+                    let a = r.after.get("notes/a.md").map(|c| String::from_utf8_lossy(c).to_string()).unwrap_or_default();
+                    let want = if class == "partial" { "# A\n\n- item\n\n[B](b.md)\n" } else { "# A\n\n- item\n\n[B](b)\n" };
+                    if a != want {
+                        rep.violate("configured-library-not-normalised", &format!("config:{}", class), format!("notes/a.md holds {:?}, expected {:?} ({})", a, want, r.status), json!({"config": config}));
+                    }
+                }
+                let _ = std::fs::remove_dir_all(&dir);
+                let _ = std::fs::remove_file(&log);
+            }
+            return rep;
+        }
         if case + 1 == tier.pick(2, 30) + 2 {
             // pinned reproducer: a note file named dd.md.md
             let dir = mon::scratch_dir("c19");
@@ -287,6 +332,10 @@ impl Check for C19 {
                 .collect()
         };
         let m0 = mtimes(&dir);
+        let owner0: Option<(u32, u32)> = {
+            use std::os::unix::fs::MetadataExt;
+            std::fs::metadata(dir.join("ends-without-newline.md")).ok().map(|m| (m.uid(), m.gid()))
+        };
         std::thread::sleep(std::time::Duration::from_millis(15));
         let base = run_iwe(&dir, None, None, &log);
         for (k, t) in mtimes(&dir) {
@@ -322,6 +371,13 @@ impl Check for C19 {
             if let Ok(m) = std::fs::metadata(dir.join("ends-without-newline.md")) {
                 if m.permissions().mode() & 0o777 != 0o600 {
                     rep.violate("note-mode-changed", "fault-free", format!("a note with mode 0600 has mode {:o} after normalize", m.permissions().mode() & 0o777), replay.clone());
+                }
+            }
+            if let (Some(o0), Ok(m)) = (owner0, std::fs::metadata(dir.join("ends-without-newline.md"))) {
+                use std::os::unix::fs::MetadataExt;
+                rep.count("owner_checks", 1);
+                if (m.uid(), m.gid()) != o0 {
+                    rep.violate("note-owner-changed", "fault-free", format!("a note owned by {:?} belongs to ({}, {}) after normalize", o0, m.uid(), m.gid()), replay.clone());
                 }
             }
             if let Ok(m) = std::fs::symlink_metadata(dir.join("sub dir/crlf note.md")) {
@@ -367,6 +423,52 @@ impl Check for C19 {
             if l.contains("rename") {
                 renames += 1;
             }
+        }
+        // trace specification: a file that is renamed over a note has been flushed (fsync / fdatasync on the descriptor it was
+        // written through) before the rename - on a file system that writes behind, a full disk or an exceeded quota is
+        // only reported by the flush, and a rename without it can put an empty file in the note's place
+        {
+            let mut fd_path: BTreeMap<(String, String), String> = BTreeMap::new(); // (pid, fd) -> path opened for writing
+            let mut flushed: BTreeMap<String, bool> = BTreeMap::new(); // path -> flushed since last write-open
+            let mut unflushed_renames = 0usize;
+            let mut flushed_renames = 0usize;
+            for l in base.strace.lines() {
+                let pid = l.split_whitespace().next().unwrap_or("").to_string();
+                if l.contains("openat(") && (l.contains("O_WRONLY") || l.contains("O_RDWR")) {
+                    let path = unescape(l.split('"').nth(1).unwrap_or(""));
+                    if let Some(fd) = l.rsplit("= ").next().map(|x| x.trim().to_string()) {
+                        if fd.chars().all(|c| c.is_ascii_digit()) && !fd.is_empty() {
+                            fd_path.insert((pid.clone(), fd), path.clone());
+                            flushed.insert(path, false);
+                        }
+                    }
+                } else if l.contains("fsync(") || l.contains("fdatasync(") {
+                    let fd = l.split('(').nth(1).unwrap_or("").split(')').next().unwrap_or("").trim().to_string();
+                    if l.trim_end().ends_with("= 0") {
+                        // (threads share descriptors: match on the descriptor alone when the pid differs)
+                        let hit = fd_path.iter().find(|((p, f), _)| *f == fd && *p == pid).or_else(|| fd_path.iter().find(|((_, f), _)| *f == fd)).map(|(_, path)| path.clone());
+                        if let Some(path) = hit {
+                            flushed.insert(path, true);
+                        }
+                    }
+                } else if l.contains("rename") && l.trim_end().ends_with("= 0") {
+                    let src = unescape(l.split('"').nth(1).unwrap_or(""));
+                    let dst = unescape(l.split('"').nth(3).unwrap_or(""));
+                    let dst_is_note = tree.notes.keys().any(|n| dst.trim_start_matches("./").ends_with(n.as_str())) || dst.ends_with("real-file.txt");
+                    if dst_is_note {
+                        match flushed.get(&src) {
+                            Some(true) => flushed_renames += 1,
+                            _ => {
+                                unflushed_renames += 1;
+                                if unflushed_renames == 1 {
+                                    rep.violate("replaced-without-flush", "fault-free", format!("{} was renamed over the note {} without having been flushed (no successful fsync / fdatasync on its descriptor)", src, dst), replay.clone());
+                                }
+                            }
+                        }
+                    }
+                }
+            }
+            rep.count("flushed_replacements", flushed_renames as u64);
         }
         rep.count("write_mode_opens", write_opens as u64);
         rep.count("file_writes", writes as u64);
